@@ -128,6 +128,9 @@ def cross(ck, q, *names):
             # carries), with market orders that reach them, cancellations, re-pricings to 0, two published levels, drain probe
             book_gen(ck, "x_edge_prices", cfg=GEN_DRAIN, Ops=["cap", "cancel", "modify"], Tick=1, NLevels=2, Prices=[0, 1, MAXPRICE], ModPrices=[-1, 0],
                      ModVols=["smaller"], Kinds=["L", "M"], MaxOrders=3, MaxOps=3 if q else 4, need=("two_sided", "has_trade", "op_modify"), timeout=300 if q else 1500)
+            # ... and several orders queued at such a price in one instant
+            book_gen(ck, "x_edge_ties", Ops=["cap", "cancel"], Dts=[0], Discipline=False, Tick=1, NLevels=2, Prices=[0, MAXPRICE], Vols=[1, 2], Kinds=["L", "M"],
+                     MaxOrders=3 if q else 4, MaxOps=4 if q else 5, need=("has_trade", "dt0", "cancelled_order"), timeout=300 if q else 1500)
         elif nm == "env_edge_prices":
             # the same through the environments: instructions for orders resting at price 0 / 2^32 - 1, cached level-2 data and records
             env_gen(ck, "x_env_edge_prices", kind="env", seeds=4, StepSize=3, T0=5, NLevels=3, Ops=["new", "cancel", "modify", "step"], Kinds=["L", "M"],
@@ -395,7 +398,7 @@ def c05(tier, seed):
     env_traces(ck, "rand_env_overflow", {"step_sizes": [1, 2, 3], "max_batch": 12, "p_step": 0.1, "nprices": 4}, files=6 if q else 48, runs=3 if q else 6, ops=200)
     env_traces(ck, "rand_env_overflow_inferred", {"step_sizes": [1, 2], "max_batch": 6, "p_step": 0.2, "nprices": 4}, files=4 if q else 32, runs=3 if q else 6,
                ops=120, hook=False)
-    cross(ck, q, "ties_modify_reload")
+    cross(ck, q, "ties_modify_reload", "edge_prices")
     prof = {"discipline": False, "p_tie": 0.5, "nprices": 6, "audit_every": 25, "w": {"modify": 4, "reload": 0.5, "toggle": 0.3}}
     ck.traces_stage("rand_ties", "record_book", prof, files=8 if q else 64, runs=2 if q else 4, ops=300)
     python_view(ck, q)
@@ -1045,7 +1048,8 @@ def c16(tier, seed):
         ck.traces_stage("agents_" + kind, "record_agents", dict(base, kinds=[kind]), files=8 if q else 32, runs=100 if q else 200, ops=0,
                         trace_spec="AgentTrace", consts={})
     # the heavy-tailed price distribution of the project's documentation (sigma = 10) on every tick size
-    ck.traces_stage("agents_sigma10", "record_agents", dict(base, kinds=["noise", "momentum"], sigmas=[10.0]), files=8 if q else 32,
+    # (and sigma = 1000: finite, but sampled distances overflow to infinity - quotes are then clamped to the ends of the price range)
+    ck.traces_stage("agents_sigma10", "record_agents", dict(base, kinds=["noise", "momentum"], sigmas=[10.0, 1000.0]), files=8 if q else 32,
                     runs=100 if q else 200, ops=0, trace_spec="AgentTrace", consts={})
     # "an action with probability at least 1 always happens": momentum agents under imposed price paths at saturated demand, order
     # ratios 0, 1/2, 1, 2 (the limit-order probability is the order ratio times the market-order probability), heavy tails included
@@ -1220,6 +1224,12 @@ def c18(tier, seed):
                 Kinds=["L", "M"], MaxOrders=3, MaxOps=3 if q else 4, need=("has_trade", "op_modify"), timeout=300 if q else 1500)
     py_env_gen(ck, "py_env_edge_prices", seeds=2 if q else 4, StepSize=4, T0=17, Ops=["new", "modify", "step"], Kinds=["L", "M"], Prices=[0, 1], Vols=[1],
                ModPrices=[0], ModVolsAbs=[-1], MaxSubmits=3, MaxBatch=3, MaxSteps=2, MaxOrders=3, need=("has_trade",), timeout=400 if q else 1800)
+    # modify requests with a price off the tick grid: the core accepts them (known finding F3 of C12), so the Python classes must
+    # show exactly what the core then shows - the specification runs with its named deviation FollowF3 = TRUE (BookOps.tla)
+    py_env_gen(ck, "py_env_offgrid_modify", seeds=2, Ticks=(2,), StepSize=4, Ops=["new", "modify", "step"], Kinds=["L"], Prices=[10, 12], Vols=[1],
+               ModPrices=[11, 12], ModVolsAbs=[-1], MaxSubmits=3, MaxBatch=3, MaxSteps=2, MaxOrders=2, need=("has_modify",), timeout=400 if q else 1800, FollowF3=True)
+    py_book_gen(ck, "py_book_offgrid_modify", Ops=["cap", "modify"], Tick=2, Prices=[10, 12], Vols=[1], Kinds=["L"], ModPrices=[-1, 11, 12], ModVols=["none"],
+                MaxOrders=2, MaxOps=3, need=("op_modify",), timeout=300, FollowF3=True)
     # StepEnv: outcome sets over all schedules, determinism in the seed, same seed as the Rust core
     py_env_gen(ck, "py_env_calls", seeds=3 if q else 8, xcheck=3, StepSize=5, Ops=["new", "cancel", "modify", "step"], Kinds=["L", "M"],
                Prices=[10, 11], Vols=[2] if q else [1, 2], ModPrices=[-1, 11], ModVolsAbs=[-1, 1], MaxSubmits=3 if q else 4, MaxBatch=3, MaxSteps=2,
